@@ -939,8 +939,10 @@ class TLSConnection(TLSRecordLayer):
 
         # because TLS 1.3 PSK is sent in ClientHello and signs the ClientHello
         # we need to send it as the last extension
+        # (and a pre_shared_key extension is not allowed without a
+        # psk_key_exchange_modes one: no PSK mode wanted, no PSK offered)
         if (settings.pskConfigs or (session and session.tickets)) \
-                and settings.maxVersion >= (3, 4):
+                and settings.maxVersion >= (3, 4) and settings.psk_modes:
             ext = PreSharedKeyExtension()
             idens = []
             binders = []
